@@ -7,6 +7,11 @@ CONSTANTS
   FixErr = TRUE
   FixNoPw = TRUE
   FixEnc = TRUE
+  Reuse = FALSE
+  Doms = {"same", "tbl", "realm", "both"}
+  Pres2 = {31, 30, 15, 0}
+  Extras2 = {"none", "algsess"}
+  QopQfs2 <- QopQfsFew
 INVARIANT TypeOK
 INVARIANT Conforms
 INVARIANT AuthIffVerifies
